@@ -645,7 +645,14 @@ func TestC04Lattice(t *testing.T) {
 			cred string
 			drop bool
 		}{{"none", false}, {"user", false}, {"none", true}, {"root", true}, {"root", false}, {"user-nosetgroups", true}} {
-			for _, ns := range [][]string{nil, {"user"}, {"user", "mnt", "uts", "ipc", "net", "cgroup"}, {"pid", "mnt", "uts"}} {
+			for nsi, ns := range [][]string{nil, {"user"}, {"user", "mnt", "uts", "ipc", "net", "cgroup"}, {"pid", "mnt", "uts"}} {
+				if !vh.Thorough() && nsi == 2 {
+					// creating and tearing down network and IPC namespaces costs 10..100x the rest (more on a loaded machine):
+					// the quick tier uses the heavy set for one flag mask in four and a light all-but-net/ipc set otherwise
+					if mask%4 != 1 {
+						ns = []string{"user", "mnt", "uts", "cgroup"}
+					}
+				}
 				for _, extra := range []int{0, 1} {
 					c := c04Case{Ptrace: mask&1 != 0, Seccomp: mask&2 != 0, LateCgroup: mask&4 != 0, Sync: mask&8 != 0, Cred: cd.cred, DropCaps: cd.drop, NS: ns}
 					if extra == 1 {
@@ -662,7 +669,7 @@ func TestC04Lattice(t *testing.T) {
 						}
 					}
 					n++
-					if extra == 0 && (cd.cred != "none" || cd.drop) {
+					if extra == 0 && (cd.cred != "none" || cd.drop) && (vh.Thorough() || nsi < 2) {
 						// the same cell started by a launcher whose effective set lacks CAP_SETPCAP (resp. CAP_SETUID)
 						for _, ld := range [][]int{{8}, {7}} {
 							c.LauncherDrop = ld
